@@ -12,7 +12,7 @@ PROPERTY = "C17"
 LEVEL = "exploration"
 RULE = (
     "exhaustive: ALL histories of length <=4 (quick) / <=5 (thorough) over the alphabet {update_dm(v): v in {dm0, "
-    "dm0+-D1, dm0+D2}} u {update_period(p): p in {p0, p0(1+e1), p0(1-e2)}} on fixed cubes whose every profile is a "
+    "dm0+-D1, dm0+D2, dm0+D3 (many turns), dm0+d (sub-bin)}} u {update_period(p): p in {p0, p0(1+e1), p0(1-e2), p0(1+tiny)}} on fixed cubes whose every profile is a "
     "permutation of distinct values (so a rotation is identifiable) and whose band/tobs make the shifts non-zero; "
     "random: Hypothesis cubes (nints 1-5, nbands 1-6, nbins 8-64) x histories of <=30 updates with arbitrary targets. "
     "After every step: .dm/.period = last value set; every profile is a rotation of its original; the cube equals a "
@@ -62,8 +62,9 @@ def targets(spec):
     e1 = 3.4 * p0 / (tobs * nbins)
     e2 = 1.7 * p0 / (tobs * nbins)
     d3 = 150.45 * (p0 / nbins) / (K * span)  # many turns: exposes any dependence of the DM shift on the current period
-    dms = [dm0, dm0 + d1, dm0 - d1, dm0 + d2, dm0 + d3]
-    ps = [p0, p0 * (1 + e1), p0 * (1 - e2)]
+    d0 = 0.08 * (p0 / nbins) / (K * span)  # sub-bin change: every sub-band shift rounds to zero although dm != dm0
+    dms = [dm0, dm0 + d1, dm0 - d1, dm0 + d2, dm0 + d3, dm0 + d0]
+    ps = [p0, p0 * (1 + e1), p0 * (1 - e2), p0 * (1 + 0.02 * e1)]
     return dms, ps
 
 
